@@ -407,7 +407,7 @@ class MarkdownNormalizer(Renderer):
             else:
                 # Add the newline between paragraphs. Normally this would be an empty line but
                 # within a quote block it would be the secondary prefix, like `> `.
-                result += self._second_prefix.strip() + "\n"
+                result += self._second_prefix.rstrip() + "\n"
 
         result += self.render_children(element)
 
